@@ -64,6 +64,18 @@ TEXT.update({
             "fault enumeration of counter presets + panic/hang monitor + core oracles"),
 })
 
+TEXT.update({
+    "C16": ("exploration", "5 C16",
+            "Cache::load (plain, mapped and cloned caches, one per thread and container) is recorded as a read in the boundary history and must linearize with the stores of other threads (never a value not stored, never older than a store whose completion precedes the call, monotone per cache); the value retained inside each cache is accounted by address in the ledger, so the conservation law at quiescent points decides 'exactly one retained reference, the previous one released'.",
+            "history linearizability with cache reads + ledger accounting of retained references"),
+})
+
+TEXT.update({
+    "C17": ("exploration", "5 C17",
+            "Every projection guard obtained through 12 chain shapes of the Access machinery is watched for its whole life: the root id it projects must not change across interleaved stores, moves and until drop; the root's drop flag must stay clear; loads are linearized against the stores; all chains must agree on a quiet container; Constant yields its own value. TOKEN-scheduled and free-running, under AddressSanitizer and Miri.",
+            "snapshot-identity monitor on projection guards + history linearizability + ASan/Miri"),
+})
+
 NOTE = {
     "C01": "Trusted: the harness pointer type and scheduler; TOKEN mode explores sequentially consistent interleavings only; SC-only ordering weakenings are out of reach (DESIGN.md).",
 }
